@@ -90,6 +90,24 @@ theorem held_released_at_next_wake (held wake : Msg) (ops : List Op) (st : St) (
   have hinv' := C07.sbufInv_history ops st hinv
   exact parked_is_released held wake { st := stateAfter st ops } hinv' rfl (PDict.get?_eq_some_mem h1) hnode
 
+/-- **Whatever the wake signal carries.**  A command held for a registered node is handed to the transport by the node's
+next wake signal — the heartbeat response of 2.0 / 2.1 carrying ANY integer `hb` (no hypothesis relates it to the heartbeat
+value `node.heartbeat` the registry has for the node: lower, equal, higher, 0, negative, huge), the pre-sleep notification
+of 2.2 carrying any payload at all — and is removed from the buffer; the node's record may hold anything (`node` is
+arbitrary: flagged as sleeping or not, heartbeat from an earlier wake or restored from the persistence file). -/
+theorem held_released_whatever_the_wake_carries (held wake : Msg) (w : W) (node : Node) (hinv : SbufInv w.st)
+    (hf : w.faults = []) (hn : w.st.nodes.get? wake.node = some node)
+    (hheld : (held.key, held) ∈ w.st.sbuf) (hnode : held.node = wake.node) :
+    (∀ hb : Int, pyInt? wake.payload = some hb →
+      (⟨encode held, true⟩ : WriteEvt) ∈ (hHeartbeat20 wake w).2.writes ∧ (held.key, held) ∉ (hHeartbeat20 wake w).2.st.sbuf) ∧
+    ((⟨encode held, true⟩ : WriteEvt) ∈ (hPreSleep22 wake w).2.writes ∧ (held.key, held) ∉ (hPreSleep22 wake w).2.st.sbuf) := by
+  constructor
+  · intro hb hp
+    rw [heartbeat_wake wake w node hb hn hp]
+    exact parked_is_released held wake _ (by simpa [SbufInv, SbufSet] using hinv) hf hheld hnode
+  · rw [pre_sleep_wake wake w node hn]
+    exact parked_is_released held wake _ (by simpa [SbufInv, SbufSet] using hinv) hf hheld hnode
+
 /-- **An object that is not a message** is rejected as an invalid message: nothing written, nothing changed. -/
 theorem not_a_message (b : Bool) (w : W) : apiSend none b w = (.error (.lib .invalidMessage), w) := rfl
 
